@@ -90,6 +90,13 @@ type BlockPipeline struct {
 	// number. A consumed-but-never-sent number would be a permanent gap that
 	// the apply stage waits on forever.
 	seqToken chan struct{}
+
+	// submittedCount counts items that entered the pipeline, completedCount
+	// items the apply stage has finished with (applied, failed or skipped).
+	// Their difference is the number of items still being processed, including
+	// items currently held by a decode or validate worker.
+	submittedCount atomic.Int64
+	completedCount atomic.Int64
 }
 
 // NewBlockPipeline creates a new BlockPipeline using functional options.
@@ -194,6 +201,7 @@ func (p *BlockPipeline) Start(ctx context.Context) error {
 		bufSize, // Deprecated: pendingQueueSize is no longer used (kept for API compatibility)
 	)
 	p.applyRunner.SetMetrics(p.metrics)
+	p.applyRunner.SetCompletionCounter(&p.completedCount)
 
 	// Start all stages
 	// Note: p.ctx is derived from the passed ctx via context.WithCancel above
@@ -246,6 +254,7 @@ func (p *BlockPipeline) Submit(ctx context.Context, blockType uint, rawCbor []by
 	}
 	defer func() { <-p.seqToken }()
 	item := NewBlockItem(blockType, rawCbor, tip, p.sequenceCounter.Load())
+	p.submittedCount.Add(1)
 	verifPoint("sub.send", "", item.SequenceNumber(), rawCbor, 0)
 
 	select {
@@ -256,8 +265,10 @@ func (p *BlockPipeline) Submit(ctx context.Context, blockType uint, rawCbor []by
 	case <-ctx.Done():
 		// Context cancelled while waiting. The sequence number was not
 		// consumed, so later submissions are not blocked behind a gap.
+		p.submittedCount.Add(-1)
 		return ctx.Err()
 	case <-p.ctx.Done():
+		p.submittedCount.Add(-1)
 		return ErrPipelineStopped
 	}
 }
@@ -336,20 +347,23 @@ func (p *BlockPipeline) Stats() PipelineStats {
 	return p.metrics.Stats()
 }
 
-// PendingCount returns the approximate number of items still being processed.
-// This includes items in inter-stage channels and items buffered in the apply stage.
+// PendingCount returns the number of items still being processed: everything
+// that was submitted and that the apply stage has not finished with yet.
 // Useful for coordinating with rollback operations.
 func (p *BlockPipeline) PendingCount() int {
 	if !p.started.Load() {
 		return 0
 	}
-	channelDepth := len(p.submitChan) + len(p.decodedChan) + len(p.validatedChan)
-	verifPoint("pc.mid", "", 0, nil, int64(channelDepth))
-	applyPending := 0
-	if p.applyStage != nil {
-		applyPending = p.applyStage.PendingCount()
+	// Count every item that entered the pipeline and that the apply stage has
+	// not finished yet. Channel lengths alone miss items that a decode or
+	// validate worker (or the apply runner) has taken but not passed on.
+	submitted := p.submittedCount.Load()
+	verifPoint("pc.mid", "", 0, nil, submitted)
+	pending := submitted - p.completedCount.Load()
+	if pending < 0 {
+		pending = 0
 	}
-	return channelDepth + applyPending
+	return int(pending)
 }
 
 // WaitForDrain blocks until all currently submitted items have been processed
